@@ -399,6 +399,34 @@ def pipeline (q : Query ν) (rows : List (Row ν)) : List (Row ν) :=
 def run (q : Query ν) (gs : List (Group ν)) : List (Row ν) :=
   pipeline N q (gs.map (fullRow N q))
 
+/-! ### what the sink sees, and which queries the theorems cover -/
+
+/-- the output columns of a result row (`Key.col n` is the column named `n`) -/
+def visible (r : Row ν) : List (Name × Val ν) :=
+  r.filterMap (fun kv => match kv.1 with
+    | .col n => some (n, kv.2)
+    | _ => none)
+
+/-- the row has no placeholder / hidden column -/
+def allVisible (r : Row ν) : Bool :=
+  r.all (fun kv => match kv.1 with
+    | .col _ => true
+    | _ => false)
+
+def noRef : Expr ν → Bool
+  | .ref _ => false
+  | .bin _ l r => noRef l && noRef r
+  | _ => true
+
+def nodupNames : List Name → Bool
+  | [] => true
+  | n :: ns => !ns.contains n && nodupNames ns
+
+/-- well-formed query: output column names pairwise different and different from the group
+column; SELECT items do not reference output columns (only HAVING may) -/
+def wf (q : Query ν) : Bool :=
+  nodupNames (q.gcol :: q.items.map (·.1)) && q.items.all (fun it => noRef it.2)
+
 /-! ### grouping of a batch (first-occurrence order; the real order is Go map order) -/
 
 def addToGroups (gcol : Name) (r : InRow ν) : List (Group ν) → List (Group ν)
